@@ -82,6 +82,16 @@ func init() {
 			ver("Verify(small-order A and R, S=0)", small[3][:], m1, append(append([]byte{}, small[6][:]...), zeroS...)),
 			sign("Sign(A)", stdA, m1, fp(sigA)), sign("Sign(B)", stdB, m2, fp(sigB)),
 			sign("Sign(inconsistent key: seed B, public half A)", stded.PrivateKey(mixed), m1, "*"),
+			{"PrivateKey.Sign(A, opts=0)", fp(sigA, nil), func(a *arena) string {
+				sig, err := ed25519.PrivateKey(a.buf(4, stdA)).Sign(nil, a.buf(1, m1), crypto.Hash(0))
+				f := fp(sig, err)
+				scribble(sig)
+				return f
+			}},
+			{"PrivateKey.Sign(A, *ed25519.Options{SHA-512})", fp([]byte(nil), true), func(a *arena) string {
+				sig, err := ed25519.PrivateKey(a.buf(4, stdA)).Sign(nil, a.buf(1, m1), &stded.Options{Hash: crypto.SHA512})
+				return fp(sig, err != nil)
+			}},
 			{"NewKeyFromSeed(A)", fp([]byte(stdA), pubA, seedA), func(a *arena) string {
 				k := ed25519.NewKeyFromSeed(a.buf(3, seedA))
 				pub := k.Public().(ed25519.PublicKey)
@@ -269,7 +279,7 @@ func init() {
 		}
 		dec := func(name string, six bool, src []byte) hOp {
 			return hOp{name, fp(src, len(src), nil), func(a *arena) string {
-				dst := a.buf(0, make([]byte, len(src)))
+				dst := a.out(0, len(src))
 				var n int
 				var err error
 				if six {
@@ -311,7 +321,7 @@ func init() {
 				return s
 			}},
 			{"b1t6.Decode(invalid group)", fp(0, true), func(a *arena) string {
-				n, err := b1t6.Decode(a.buf(0, make([]byte, 3)), tr(bad6))
+				n, err := b1t6.Decode(a.out(0, 3), tr(bad6))
 				return fp(n, errors.Is(err, b1t6.ErrInvalidTrits))
 			}},
 		}
